@@ -396,3 +396,124 @@ func (e *Eng) codecConfig() {
 	}
 	e.add("codec#decoders-unrestricted", "package", props, n > 0 && len(bad) == 0, fmt.Sprintf("%d decoder constructors, all without options %s", n, strings.Join(bad, "; ")))
 }
+
+// codecFlush: the encoder's scratch buffers are flushed IN FULL. Every Write of a scratch buffer inside Serialize
+// passes either the whole buffer (an unsliced read of the field) with the raw counter advanced by the length of that
+// same buffer, or the prefix [:n] of a fixed-size buffer with the raw counter advanced by the same (non-constant) n;
+// and a buffer is emptied inside a loop only directly after such a whole-buffer Write, with no store to it between.
+// What it rules out: a flush that writes / counts a part of the buffer and then discards the rest (the decoder then
+// runs out of values or reads a shifted stream) - a history/size dependent loss no per-entry width table sees.
+func (e *Eng) codecFlush() {
+	props := []string{"C11"}
+	name := "codec#flush-writes-whole-buffer"
+	ser := e.fn("(*Serializer).Serialize")
+	if ser == nil {
+		e.add(name, "(*Serializer).Serialize", props, false, "function not found")
+		return
+	}
+	storeField := func(in ssa.Instruction) string {
+		if s, ok := in.(*ssa.Store); ok {
+			if fa, ok := s.Addr.(*ssa.FieldAddr); ok {
+				if p, ok := fa.X.Type().Underlying().(*types.Pointer); ok {
+					if st, ok := p.Elem().Underlying().(*types.Struct); ok {
+						return st.Field(fa.Field).Name()
+					}
+				}
+			}
+		}
+		return ""
+	}
+	inLoop := func(b *ssa.BasicBlock) bool {
+		seen := map[*ssa.BasicBlock]bool{}
+		work := append([]*ssa.BasicBlock{}, b.Succs...)
+		for len(work) > 0 {
+			x := work[len(work)-1]
+			work = work[:len(work)-1]
+			if x == b {
+				return true
+			}
+			if seen[x] {
+				continue
+			}
+			seen[x] = true
+			work = append(work, x.Succs...)
+		}
+		return false
+	}
+	var bad []string
+	writes := map[string]int{}
+	for _, b := range ser.Blocks {
+		for k, in := range b.Instrs {
+			// (1) every Write of a scratch buffer
+			if c, ok := in.(*ssa.Call); ok && c.Call.IsInvoke() && c.Call.Method.Name() == "Write" && len(c.Call.Args) == 1 {
+				arg := c.Call.Args[0]
+				if f := fieldNameOf(arg); f != "" {
+					// whole buffer: the counter must advance by len(<same field>) in this block, nothing stored to the field before the Write
+					counted := false
+					for _, p := range b.Instrs[:k] {
+						if bo, ok := p.(*ssa.BinOp); ok && bo.Op == token.ADD {
+							for _, op := range []ssa.Value{bo.X, bo.Y} {
+								if lc, ok := op.(*ssa.Call); ok {
+									if bi, ok := lc.Call.Value.(*ssa.Builtin); ok && bi.Name() == "len" && fieldNameOf(lc.Call.Args[0]) == f {
+										counted = true
+									}
+								}
+							}
+						}
+						if storeField(p) == f {
+							bad = append(bad, fmt.Sprintf("%s: %s is stored to before it is written out in the same block", e.pos(in), f))
+						}
+					}
+					if !counted {
+						bad = append(bad, fmt.Sprintf("%s: whole-buffer Write of %s without advancing a counter by len(%s)", e.pos(in), f, f))
+					}
+					writes[f]++
+				} else if sl, ok := arg.(*ssa.Slice); ok && fieldNameOf(sl.X) != "" {
+					f := fieldNameOf(sl.X)
+					_, constHigh := sl.High.(*ssa.Const)
+					if sl.Low != nil || sl.High == nil || constHigh {
+						bad = append(bad, fmt.Sprintf("%s: Write of a part of %s that is not the counted prefix [:n]", e.pos(in), f))
+					} else {
+						counted := false
+						for _, p := range b.Instrs[:k] {
+							if bo, ok := p.(*ssa.BinOp); ok && bo.Op == token.ADD && (bo.X == sl.High || bo.Y == sl.High) {
+								counted = true
+							}
+						}
+						if !counted {
+							bad = append(bad, fmt.Sprintf("%s: prefix Write of %s without advancing a counter by the same length", e.pos(in), f))
+						}
+					}
+					writes[f]++
+				}
+			}
+			// (2) emptying a buffer inside a loop
+			if f := storeField(in); f != "" {
+				st := in.(*ssa.Store)
+				if sl, ok := st.Val.(*ssa.Slice); ok && fieldNameOf(sl.X) == f && sl.High != nil && isConstInt(sl.High, 0) && inLoop(b) {
+					flushed := false
+					for _, p := range b.Instrs[:k] {
+						if c, ok := p.(*ssa.Call); ok && c.Call.IsInvoke() && c.Call.Method.Name() == "Write" && len(c.Call.Args) == 1 && fieldNameOf(c.Call.Args[0]) == f {
+							flushed = true
+						} else if storeField(p) == f {
+							flushed = false
+						}
+					}
+					if !flushed {
+						bad = append(bad, fmt.Sprintf("%s: %s is emptied inside the loop without the whole buffer having been written out just before", e.pos(in), f))
+					}
+				}
+			}
+		}
+	}
+	for _, f := range []string{"valuesBuf", "tagsBuf"} {
+		if writes[f] < 2 {
+			bad = append(bad, fmt.Sprintf("expected a flush of %s inside the loop and one after it, found %d", f, writes[f]))
+		}
+	}
+	detail := fmt.Sprintf("%d scratch-buffer writes (valuesBuf %d, tagsBuf %d): each passes the whole buffer / the counted prefix, counters advance by the same length, buffers are emptied only after a whole-buffer write", writes["valuesBuf"]+writes["tagsBuf"], writes["valuesBuf"], writes["tagsBuf"])
+	if len(bad) > 0 {
+		detail = strings.Join(bad, "; ")
+	}
+	e.add(name, funcKey(ser), props, len(bad) == 0, detail)
+}
